@@ -30,10 +30,10 @@ from ..mutate import mutate, remove_stmts, replace_expr, replace_stmt, parse_stm
 from ..model import AnalysisError
 from ..x_sites import method_calls
 from ..x_flow import expand_locals
-from ..x_peval import STOP, UNK, make_resolver, pure_self_methods, peval, pfold, prep, partition, predicates_on, try_fold
+from ..x_peval import STOP, UNK, make_resolver, pure_self_methods, module_constants, class_constants, peval, pfold, prep, partition, predicates_on, try_fold
 
 from ..x_http import norm_func
-from ..x_objalias import subst_object_aliases
+from ..x_objalias import subst_object_aliases, inline_constants, through_local
 
 # private helpers that the rules model by name (sanitisers / summarised effects) and therefore must stay calls
 KEEP_CALLS = {"_format_chunk", "_convert_header_value", "_clear_representation_headers", "_can_keep_alive", "_compressible_type",
@@ -44,7 +44,7 @@ def F(ck, relpath, qualname):
     """The anchored function with its private same-file helpers inlined (function splitting is followed, depth 3)."""
     fi = ck.func(relpath, qualname)
     try:
-        return subst_object_aliases(norm_func(ck.repo, fi, depth=3, no_inline=KEEP_CALLS))
+        return inline_constants(subst_object_aliases(norm_func(ck.repo, fi, depth=3, no_inline=KEEP_CALLS)))
     except AnalysisError:
         raise
     except Exception as e:  # the normaliser must never turn into a verdict
@@ -66,6 +66,14 @@ def absent(fi, what, keep=()):
     if not fully_inlined(fi, keep):
         raise AnalysisError("%s: %s not found, and private helpers remain that could not be inlined" % (fi.qualname, what))
     return False
+
+
+def OB(ck, env, rule, fi, node, ok, what, construct=None):
+    """ck.ob for verdicts derived from a partial evaluation: a failing verdict reached through a test that involves a
+    fixed input but could not be decided is not positive evidence — fail closed instead of reporting it."""
+    if not ok and env is not None and env.get("@partial"):
+        raise AnalysisError("%s: not decidable here - the evaluation went through the test '%s', which involves a fixed input but could not be folded" % (fi.qualname, env["@partial"]))
+    return ck.ob(rule, fi, node, ok, what, construct=construct)
 
 
 TECHNIQUE = "partial evaluation of the CFG over the partitioned (version, method, status, Content-Length, disconnect) space + guard-dominance/typestate on the length guard"
@@ -335,6 +343,8 @@ def check_write_headers(ck):
                     env["@set:" + str(t.slice.value)] = val.value if isinstance(val, ast.Constant) else "?"
         return None
 
+    consts_wh = module_constants(fi)
+    consts_wh.update(class_constants(ck.repo, H1, CONN))
     versions = request_versions(ck, fi)
     ck.note("request versions analysed (every string the request-line grammar admits is equivalent to one of them for the comparisons the code makes): %s" % ", ".join(versions))
     pre = {v: keepalive_precondition(ck, v) for v in versions}
@@ -343,16 +353,24 @@ def check_write_headers(ck):
     if not all(pre[v] for v in versions if v != "HTTP/1.1"):
         ck.note("keep-alive precondition could not be re-derived from _can_keep_alive for %s; those valuations are all treated as feasible" % ", ".join(v for v in versions if not pre[v] and v != "HTTP/1.1"))
 
+    # request methods: the ones the code names (it can only distinguish those) plus one it does not name
+    named = set()
+    for cmp_ in [x for x in q.walk_body(fi.node) if isinstance(x, ast.Compare)]:
+        ce = expand_locals(fi, cmp_)
+        if (RSL + ".method") in q.paths_in(ce):
+            named |= {v for v in q.literal_strs(ce) if v.isupper() and v.isalpha()}
+    req_methods = sorted(named | {"HEAD", "GET"})
     n_val = 0
     for version in versions:
         use_pre = pre[version] and version != "HTTP/1.1"
-        for method in ("GET", "HEAD", "POST"):
+        for method in req_methods:
             for cls in classes:
                 code = cls[0]
                 for has_cl in (False, True):
                     for dof_in in (False, True):
                         n_val += 1
-                        init = {
+                        init = dict(consts_wh)
+                        init.update({
                             "self.is_client": False,
                             RSL + ".version": version,
                             RSL + ".method": method,
@@ -363,7 +381,7 @@ def check_write_headers(ck):
                             CHUNKING: UNK,
                             "@ecr": "unset",
                             "@resolve": resolver,
-                        }
+                        })
                         def on_edge(n, kind, env, version=version, dof_in=dof_in, use_pre=use_pre):
                             if use_pre and kind == "false" and not dof_in and _keepalive_fact(q.unparse(n.ast)):
                                 return STOP  # infeasible: a 1.0 request without keep-alive arrives with the flag set
@@ -374,7 +392,7 @@ def check_write_headers(ck):
                         if not exits:
                             raise AnalysisError("write_headers has no normal exit under %s %s %s" % (version, method, class_label(cls)))
                         _judge_exit_states(ck, fi, exits, version, method, cls, has_cl, dof_in, hd, use_pre)
-    ck.floor("C02.framing", n_val, 96, "valuations of write_headers")
+    ck.floor("C02.framing", n_val, 64, "valuations of write_headers")
 
 
 def _judge_exit_states(ck, fi, exits, version, method, cls, has_cl, dof_in, hd, use_pre):
@@ -390,34 +408,35 @@ def _judge_exit_states(ck, fi, exits, version, method, cls, has_cl, dof_in, hd, 
         for nm, v in ((CHUNKING, chunking), (DOF, dof), (hd, hdrs)):
             if v is UNK or (nm == hd and not isinstance(v, frozenset)):
                 raise AnalysisError("write_headers: value of %s at exit is not determined under %s" % (nm, label))
-        agg[(bool(chunking), bool(dof), hdrs, ecr, env.get("@set:Transfer-Encoding"))] = True
-    for (chunking, dof, hdrs, ecr, te_val) in sorted(agg, key=repr):
+        agg[(bool(chunking), bool(dof), hdrs, ecr, env.get("@set:Transfer-Encoding"), env.get("@partial"))] = True
+    for (chunking, dof, hdrs, ecr, te_val, partial) in sorted(agg, key=repr):
+        env = {"@partial": partial}
         cl = "Content-Length" in hdrs
         te = "Transfer-Encoding" in hdrs
         desc = "%s -> chunked=%s Content-Length=%s close=%s expected=%s" % (label, chunking, cl, dof, ecr)
         # R1 framing
         ok = bool(grp) or chunking or cl or dof
-        ck.ob("C02.framing", fi, fi.node, ok, "body is delimited (chunked / Content-Length) or bodiless or the connection closes: " + desc,
+        OB(ck, env, "C02.framing", fi, fi.node, ok, "body is delimited (chunked / Content-Length) or bodiless or the connection closes: " + desc,
               construct="undelimited body on a kept connection: version=%s Content-Length=absent disconnect=False" % version)
         # R2 bodiless never chunked
         if grp:
-            ck.ob("C02.bodiless-not-chunked", fi, fi.node, not chunking and not te, "bodiless response (%s) carries no Transfer-Encoding: %s" % (grp, desc),
+            OB(ck, env, "C02.bodiless-not-chunked", fi, fi.node, not chunking and not te, "bodiless response (%s) carries no Transfer-Encoding: %s" % (grp, desc),
                   construct="chunked bodiless response: %s" % grp)
-            ck.ob("C02.zero-length", fi, fi.node, ecr == "zero", "bodiless response (%s) has expected content length 0 so that any body write is rejected: %s" % (grp, desc),
+            OB(ck, env, "C02.zero-length", fi, fi.node, ecr == "zero", "bodiless response (%s) has expected content length 0 so that any body write is rejected: %s" % (grp, desc),
                   construct="zero-length set lacks %s" % grp)
         else:
             if cl:
-                ck.ob("C02.length-armed", fi, fi.node, ecr == "content-length", "declared Content-Length arms the length guard: " + desc,
+                OB(ck, env, "C02.length-armed", fi, fi.node, ecr == "content-length", "declared Content-Length arms the length guard: " + desc,
                       construct="Content-Length present but expected=%s" % ecr)
             else:
-                ck.ob("C02.length-armed", fi, fi.node, ecr == "none", "without Content-Length no stale expected length remains: " + desc,
+                OB(ck, env, "C02.length-armed", fi, fi.node, ecr == "none", "without Content-Length no stale expected length remains: " + desc,
                       construct="Content-Length absent but expected=%s" % ecr)
         # R3 chunking consistency
-        ck.ob("C02.chunking-consistent", fi, fi.node, not (chunking and cl), "Transfer-Encoding: chunked and Content-Length are never both sent: " + desc,
+        OB(ck, env, "C02.chunking-consistent", fi, fi.node, not (chunking and cl), "Transfer-Encoding: chunked and Content-Length are never both sent: " + desc,
               construct="chunked together with Content-Length")
-        ck.ob("C02.chunking-consistent", fi, fi.node, not (chunking and version != "HTTP/1.1"), "chunked coding only to an HTTP/1.1 peer: " + desc,
+        OB(ck, env, "C02.chunking-consistent", fi, fi.node, not (chunking and version != "HTTP/1.1"), "chunked coding only to an HTTP/1.1 peer: " + desc,
               construct="chunked to %s" % version)
-        ck.ob("C02.chunking-consistent", fi, fi.node, chunking == te and (not te or te_val == "chunked"), "the Transfer-Encoding: chunked header is emitted exactly when the body will be chunk-coded: " + desc,
+        OB(ck, env, "C02.chunking-consistent", fi, fi.node, chunking == te and (not te or te_val == "chunked"), "the Transfer-Encoding: chunked header is emitted exactly when the body will be chunk-coded: " + desc,
               construct="chunking=%s but Transfer-Encoding header=%s" % (chunking, te_val if te else "absent"))
 
 
@@ -493,6 +512,8 @@ def check_format_chunk(ck):
     known = {m: None for m in pure_self_methods(ck.repo, H1, CONN)}
     raise_nodes = cfg.stmt_nodes(lambda n: n.kind == "stmt" and isinstance(n.ast, ast.Raise))
     ret_nodes = cfg.stmt_nodes(lambda n: n.kind == "stmt" and isinstance(n.ast, ast.Return))
+    consts = module_constants(fi)
+    consts.update(class_constants(ck.repo, H1, CONN))
     n_val = 0
     for remaining in (None, 0, 3, 26, 40):
         for data in (b"", b"abc", b"a" * 26):
@@ -504,7 +525,8 @@ def check_format_chunk(ck):
                         env["@closed"] = True
                     return None
 
-                init = {ECR: remaining, chunk: data, CHUNKING: chunking, "@closed": False, "@resolve": resolver}
+                init = dict(consts)
+                init.update({ECR: remaining, chunk: data, CHUNKING: chunking, "@closed": False, "@resolve": resolver})
                 states = peval(cfg, init, hook=hook, known_self_methods=known, track=lambda t: True)
                 label = "remaining=%r len(chunk)=%d chunking=%s" % (remaining, len(data), chunking)
                 after = None if remaining is None else remaining - len(data)
@@ -517,25 +539,25 @@ def check_format_chunk(ck):
                 if not raised and not returned:
                     raise AnalysisError("_format_chunk: neither return nor raise reached under " + label)
                 if after is not None and after < 0:
-                    ck.ob("C02.length-guard", fi, fi.node, not returned, "more data than the declared Content-Length is never returned for writing (%s)" % label, construct="over-length data accepted")
+                    OB(ck, (returned[0][1] if returned else None), "C02.length-guard", fi, fi.node, not returned, "more data than the declared Content-Length is never returned for writing (%s)" % label, construct="over-length data accepted")
                     for r, env in raised:
-                        ck.ob("C02.close-before-raise", fi, r.ast, env.get("@closed") is True, "the stream is closed before HTTPOutputError is raised (no further bytes can follow a broken frame; %s)" % label)
+                        OB(ck, env, "C02.close-before-raise", fi, r.ast, env.get("@closed") is True, "the stream is closed before HTTPOutputError is raised (no further bytes can follow a broken frame; %s)" % label)
                     continue
-                ck.ob("C02.length-guard", fi, fi.node, not raised, "data within the declared length (or without a declared length) is accepted (%s)" % label, construct="exact-length write rejected" if after == 0 else "in-bounds write rejected")
+                OB(ck, (raised[0][1] if raised else None), "C02.length-guard", fi, fi.node, not raised, "data within the declared length (or without a declared length) is accepted (%s)" % label, construct="exact-length write rejected" if after == 0 else "in-bounds write rejected")
                 for r, env, v in returned:
                     got = env.get(ECR, UNK)
                     if got is UNK:
                         raise AnalysisError("_format_chunk: remaining length not determined at return under " + label)
-                    ck.ob("C02.length-guard", fi, r.ast, got == after and (got is None) == (after is None), "the expected remaining length is decreased by exactly len(chunk) (%s -> %r)" % (label, got),
+                    OB(ck, env, "C02.length-guard", fi, r.ast, got == after and (got is None) == (after is None), "the expected remaining length is decreased by exactly len(chunk) (%s -> %r)" % (label, got),
                           construct="remaining length after write: expected %r" % ("unchanged None" if after is None else "remaining - len(chunk)"))
                     if v is UNK or not isinstance(v, (bytes, type(None))):
                         raise AnalysisError("_format_chunk: returned bytes cannot be evaluated under %s (%s)" % (label, q.unparse(r.ast.value) if r.ast.value is not None else "None"))
                     if chunking and data:
                         ok = isinstance(v, bytes) and _re.fullmatch(rb"0*%x\r\n" % len(data) + _re.escape(data) + rb"\r\n", v, _re.I) is not None
-                        ck.ob("C02.chunk-format", fi, r.ast, ok, "while chunking a non-empty chunk is framed as <hex size> CRLF <data> CRLF (%s -> %r)" % (label, v[:12] if isinstance(v, bytes) else v),
+                        OB(ck, env, "C02.chunk-format", fi, r.ast, ok, "while chunking a non-empty chunk is framed as <hex size> CRLF <data> CRLF (%s -> %r)" % (label, v[:12] if isinstance(v, bytes) else v),
                               construct="chunk framing wrong for non-empty data")
                     else:
-                        ck.ob("C02.chunk-format", fi, r.ast, v == data, "without chunking, and for an empty chunk (which would be the last-chunk marker), the data is returned unframed (%s -> %r)" % (label, v[:12] if isinstance(v, bytes) else v),
+                        OB(ck, env, "C02.chunk-format", fi, r.ast, v == data, "without chunking, and for an empty chunk (which would be the last-chunk marker), the data is returned unframed (%s -> %r)" % (label, v[:12] if isinstance(v, bytes) else v),
                               construct="data altered although %s" % ("not chunking" if not chunking else "chunk is empty"))
     ck.floor("C02.length-guard", n_val, 30, "valuations of _format_chunk")
 
@@ -555,9 +577,9 @@ def check_stream_writes(ck):
         body_params = [p for p in params if p == "chunk"]
         tainted = tainted_names(fi, body_params, sanitizers=["_format_chunk"]) if body_params else set()
         for c in writes:
-            a = c.args[0] if c.args else None
+            a = q.arg(c, 0, "data")
             if a is None:
-                raise AnalysisError("stream.write without positional data in %s" % fi.qualname)
+                raise AnalysisError("stream.write without a data argument in %s" % fi.qualname)
             if isinstance(a, ast.Constant) and isinstance(a.value, bytes):
                 continue  # fixed protocol bytes (100-continue, 400, last-chunk) — judged by their own rules
             if fi.name in ("write", "write_headers"):
@@ -593,7 +615,7 @@ def check_fixed_writes(ck):
     facts = must_facts(fi.cfg)
     n = 0
     for node, c in call_sites(fi, "self.stream.write"):
-        a = q.arg(c, 0)
+        a = q.arg(c, 0, "data")
         if not (isinstance(a, ast.Constant) and isinstance(a.value, bytes)):
             ck.ob("C02.fixed-writes", fi, c, False, "_read_message writes only fixed protocol bytes itself")
             continue
@@ -622,7 +644,7 @@ def check_fixed_writes(ck):
 def _is_last_chunk(c) -> bool:
     from ..rx import Rx
 
-    a = c.args[0] if c.args else None
+    a = q.arg(c, 0, "data")
     return isinstance(a, ast.Constant) and isinstance(a.value, bytes) and Rx.from_pattern(rb"0+\r\n\r\n").accepts(a.value)
 
 
@@ -645,6 +667,8 @@ def check_conn_finish(ck):
     done_nodes = cfg.stmt_nodes(lambda n: n.kind == "stmt" and isinstance(n.ast, ast.Assign) and "self._write_finished" in q.assigned_paths(n.ast) and isinstance(n.ast.value, ast.Constant) and n.ast.value.value is True)
     raise_nodes = cfg.stmt_nodes(lambda n: n.kind == "stmt" and isinstance(n.ast, ast.Raise))
     done_ids = {n.id for n in done_nodes}
+    consts = module_constants(fi)
+    consts.update(class_constants(ck.repo, H1, CONN))
     n_val = 0
     for remaining in (None, 0, 4):
         for closed in (False, True):
@@ -662,7 +686,8 @@ def check_conn_finish(ck):
                         snaps.append(dict(env))
                     return None
 
-                init = {ECR: remaining, CLOSED_CALL: closed, CHUNKING: chunking, "@terms": 0, "@closed-by-finish": False, "@resolve": resolver}
+                init = dict(consts)
+                init.update({ECR: remaining, CLOSED_CALL: closed, CHUNKING: chunking, "@terms": 0, "@closed-by-finish": False, "@resolve": resolver})
                 states = peval(cfg, init, hook=hook, known_self_methods=known, track=lambda t: True)
                 label = "remaining=%r stream_closed=%s chunking=%s" % (remaining, closed, chunking)
                 raised = [(r, env) for r in raise_nodes for _f, env in states.get(r.id, [])]
@@ -670,16 +695,16 @@ def check_conn_finish(ck):
                 if not raised and not snaps:
                     raise AnalysisError("HTTP1Connection.finish: neither the completion mark nor a raise is reached under " + label)
                 if short:
-                    ck.ob("C02.short-body", fi, fi.node, not snaps, "a response with declared bytes missing on an open stream is not marked finished (%s)" % label, construct="finish with bytes missing")
+                    OB(ck, (snaps[0] if snaps else None), "C02.short-body", fi, fi.node, not snaps, "a response with declared bytes missing on an open stream is not marked finished (%s)" % label, construct="finish with bytes missing")
                     for r, env in raised:
-                        ck.ob("C02.close-before-raise", fi, r.ast, env.get("@closed-by-finish") is True, "the stream is closed before HTTPOutputError is raised for a short body (%s)" % label)
-                        ck.ob("C02.short-body", fi, r.ast, env.get("@terms", 0) == 0, "no last-chunk marker precedes the short-body error (%s)" % label, construct="last-chunk before short-body check")
+                        OB(ck, env, "C02.close-before-raise", fi, r.ast, env.get("@closed-by-finish") is True, "the stream is closed before HTTPOutputError is raised for a short body (%s)" % label)
+                        OB(ck, env, "C02.short-body", fi, r.ast, env.get("@terms", 0) == 0, "no last-chunk marker precedes the short-body error (%s)" % label, construct="last-chunk before short-body check")
                     continue
-                ck.ob("C02.short-body", fi, fi.node, not raised, "a complete body (or an already closed stream) is not rejected (%s)" % label, construct="complete body rejected")
+                OB(ck, (raised[0][1] if raised else None), "C02.short-body", fi, fi.node, not raised, "a complete body (or an already closed stream) is not rejected (%s)" % label, construct="complete body rejected")
                 for env in snaps:
                     terms = env.get("@terms", 0)
                     want = 1 if (chunking and not closed) else 0
-                    ck.ob("C02.terminator", fi, fi.node, terms == want, "the last-chunk marker is written exactly when the body is chunk-coded and the stream open (%s: written %d time(s))" % (label, terms),
+                    OB(ck, env, "C02.terminator", fi, fi.node, terms == want, "the last-chunk marker is written exactly when the body is chunk-coded and the stream open (%s: written %d time(s))" % (label, terms),
                           construct="last-chunk marker count %s: chunking=%s closed=%s" % ("too low" if terms < want else "too high", chunking, closed))
     ck.floor("C02.short-body", n_val, 12, "valuations of HTTP1Connection.finish")
     ck.floor("C02.short-body", len(done_nodes), 1, "'_write_finished = True' in finish")
@@ -696,8 +721,8 @@ WB = "self._write_buffer"
 METHOD = "self.request.method"
 
 
-def _const_arg(c, i):
-    a = q.arg(c, i)
+def _const_arg(c, i, name=None):
+    a = q.arg(c, i, name if name is not None else ("name" if i == 0 else None))
     return a.value if isinstance(a, ast.Constant) else None
 
 
@@ -806,6 +831,8 @@ def check_handler_finish(ck):
         classes.extend(sub.values())
     classes = refine_by_literals(classes, callee_literals(ck.repo, WEB, RH, fi, depth=1) & {v for v in range(99, 601)})
     ck.note("RequestHandler.finish: status classes " + ", ".join(class_label(c) for c in classes))
+    consts_rh = module_constants(fi)
+    consts_rh.update(class_constants(ck.repo, WEB, RH))
     flush_calls = call_sites(fi, "self.flush")
     ck.floor("C02.finish-content-length", len(flush_calls), 1, "self.flush calls in RequestHandler.finish")
     flush_ids = {n.id for n, _ in flush_calls}
@@ -813,9 +840,12 @@ def check_handler_finish(ck):
 
     def hook(n, env):
         if n.kind == "stmt" and isinstance(n.ast, ast.Assert) and WB in q.paths_in(n.ast.test):
-            t = n.ast.test
-            if isinstance(t, ast.UnaryOp) and isinstance(t.op, ast.Not) and q.dotted(t.operand) == WB:
+            # whatever its wording (not buf / len(buf) == 0 / buf == []): true for the empty buffer, false otherwise
+            t = expand_locals(fi, n.ast.test)
+            if try_fold(t, {WB: ()}) is True and try_fold(t, {WB: (b"x",)}) is False:
                 env["@asserted-empty"] = True
+            elif try_fold(t, {WB: ()}) is UNK:
+                env["@asserted-empty"] = "?"
         if n.id in flush_ids:
             results.append(dict(env))
         return None
@@ -826,8 +856,9 @@ def check_handler_finish(ck):
             for hw in (False, True):
                 for has_cl in (False, True):
                     del results[:]
-                    init = {SC: cls[0], METHOD: method, HW: hw, HDRS: frozenset(["Content-Type", "Content-Length"] if has_cl else ["Content-Type"]),
-                            "self._finished": False, WB: UNK, "@resolve": make_resolver(ck.repo, WEB, RH)}
+                    init = dict(consts_rh)
+                    init.update({SC: cls[0], METHOD: method, HW: hw, HDRS: frozenset(["Content-Type", "Content-Length"] if has_cl else ["Content-Type"]),
+                                 "self._finished": False, WB: UNK, "@resolve": make_resolver(ck.repo, WEB, RH)})
                     if chunk:
                         init[chunk] = None
                     eff = dict(effects)
@@ -850,16 +881,18 @@ def check_handler_finish(ck):
                         seen_keys.add(key)
                         desc = "%s -> status=%d Content-Length=%s (added by finish: %s)" % (label, code, "Content-Length" in hdrs, added)
                         if hw:
-                            ck.ob("C02.finish-content-length", fi, fi.node, not added, "after the headers were flushed finish() no longer touches Content-Length: " + desc, construct="Content-Length set after headers were written")
+                            OB(ck, env, "C02.finish-content-length", fi, fi.node, not added, "after the headers were flushed finish() no longer touches Content-Length: " + desc, construct="Content-Length set after headers were written")
                             continue
                         if bodiless_status(code):
-                            ck.ob("C02.finish-bodiless", fi, fi.node, not added, "no Content-Length is computed for a 1xx/204/304 response: " + desc,
+                            OB(ck, env, "C02.finish-bodiless", fi, fi.node, not added, "no Content-Length is computed for a 1xx/204/304 response: " + desc,
                                   construct="Content-Length computed for bodiless status %s" % bodiless_group("GET", code))
+                            if env.get("@asserted-empty") == "?":
+                                raise AnalysisError("RequestHandler.finish: an assertion about the write buffer cannot be evaluated")
                             empty = env.get(WB) == () or (bool(env.get("@asserted-empty")) and not env.get("@framework-status"))
-                            ck.ob("C02.finish-bodiless", fi, fi.node, empty, "the unflushed buffer is empty for a 1xx/204/304 response (asserted for an application-chosen status, cleared when finish() itself substitutes 304): " + desc,
+                            OB(ck, env, "C02.finish-bodiless", fi, fi.node, empty, "the unflushed buffer is empty for a 1xx/204/304 response (asserted for an application-chosen status, cleared when finish() itself substitutes 304): " + desc,
                                   construct="buffer not emptied for bodiless status %s (substituted=%s)" % (bodiless_group("GET", code), bool(env.get("@framework-status"))))
                         else:
-                            ck.ob("C02.finish-content-length", fi, fi.node, "Content-Length" in hdrs, "an unflushed response with a body-capable status always carries Content-Length: " + desc,
+                            OB(ck, env, "C02.finish-content-length", fi, fi.node, "Content-Length" in hdrs, "an unflushed response with a body-capable status always carries Content-Length: " + desc,
                                   construct="no Content-Length for unflushed response")
     ck.floor("C02.finish-content-length", n_val, 24, "valuations of RequestHandler.finish")
     n_cl = 0
@@ -869,10 +902,39 @@ def check_handler_finish(ck):
             v = q.arg(c, 1, "value")
             if v is None:
                 raise AnalysisError("RequestHandler.finish: Content-Length set without a value argument")
-            # evaluate the expression on a concrete buffer: any formulation of "total byte length" gives 5 here
-            got = try_fold(expand_locals(fi, v), {WB: (b"ab", b"cde")})
+            # evaluate finish() on a concrete buffer: any formulation of "total byte length" (expression, explaining
+            # locals, an accumulating loop) gives 5 here
+            seen_cl = []
+
+            def cl_hook(n, env, c=c, seen_cl=seen_cl):
+                if n.kind == "stmt" and any(x is c for x in ast.walk(n.ast)):
+                    buf = env.get(WB, UNK)
+                    val = try_fold(q.arg(c, 1, "value"), env)
+                    if isinstance(buf, tuple) and val is not UNK:
+                        # normalise to "the value for the sample buffer": right iff it equals the byte length of the
+                        # buffer as it is at this point
+                        seen_cl.append(5 if str(val) == str(sum(len(p_) for p_ in buf)) else ("wrong", val, buf))
+                    else:
+                        seen_cl.append(UNK)
+                return None
+
+            init = dict(consts_rh)
+            init.update({SC: 200, METHOD: "GET", HW: False, HDRS: frozenset(["Content-Type"]), "self._finished": False, WB: (b"ab", b"cde"), "@resolve": make_resolver(ck.repo, WEB, RH)})
+            if chunk:
+                init[chunk] = None
+            eff = dict(effects)
+            eff["flush"] = None
+            peval(fi.cfg, init, hook=cl_hook, known_self_methods=eff, track=lambda t: True)
+            vals = {x for x in seen_cl}
+            wrong = [x for x in vals if isinstance(x, tuple)]
+            if wrong:
+                got = wrong[0][1]
+            elif not vals or UNK in vals:
+                got = try_fold(expand_locals(fi, v), {WB: (b"ab", b"cde")})
+            else:
+                got = 5
             if got is UNK:
-                raise AnalysisError("RequestHandler.finish: the Content-Length expression %s cannot be evaluated on a sample buffer" % q.unparse(v)[:60])
+                raise AnalysisError("RequestHandler.finish: the Content-Length value %s cannot be evaluated on a sample buffer" % q.unparse(v)[:60])
             ck.ob("C02.finish-content-length", fi, c, got in (5, "5", b"5"), "the computed Content-Length is the total byte length of the unflushed buffer (what a GET would carry); on the sample buffer (b'ab', b'cde') it evaluates to %r" % (got,))
     ck.floor("C02.finish-content-length", n_cl, 1, "Content-Length computations in RequestHandler.finish")
     # ordering: flush (which emits headers+body) precedes connection.finish()
@@ -891,7 +953,7 @@ def check_finish_order(ck):
         raise AnalysisError("RequestHandler.finish lost its chunk parameter")
     chunk = ps[1]
     cfg = fi.cfg
-    writes = {n.id for n, c in call_sites(fi, "self.write") if c.args and q.dotted(c.args[0]) == chunk}
+    writes = {n.id for n, c in call_sites(fi, "self.write") if q.arg(c, 0, "chunk") is not None and q.dotted(q.arg(c, 0, "chunk")) == chunk}
     if not writes:
         used = [x for x in q.walk_body(fi.node) if isinstance(x, ast.Name) and x.id == chunk and isinstance(x.ctx, ast.Load)]
         in_tests = [x for t in fi.cfg.stmt_nodes(lambda n: n.kind == "test") for x in ast.walk(t.ast) if isinstance(x, ast.Name) and x.id == chunk]
@@ -984,13 +1046,31 @@ def check_error_reset(ck):
     body bytes / headers of the abandoned response."""
     cl = F(ck, WEB, RH + ".clear")
     cfg = cl.cfg
-    is_fresh_headers = lambda n: n.kind == "stmt" and isinstance(n.ast, (ast.Assign, ast.AnnAssign)) and HDRS in q.assigned_paths(n.ast) and isinstance(n.ast.value, ast.Call) and q.call_attr(n.ast.value) == "HTTPHeaders"
-    is_status_reset = lambda n: n.kind == "stmt" and isinstance(n.ast, (ast.Assign, ast.AnnAssign)) and SC in q.assigned_paths(n.ast) and isinstance(n.ast.value, ast.Constant) and n.ast.value.value == 200
-    facts = event_facts(cl, {"buffer": _resets_buffer, "headers": is_fresh_headers, "status": is_status_reset}, cond_facts=False)
-    at_exit = facts[cfg.exit.id]
-    ck.ob("C02.error-reset", cl, cl.node, ("@buffer", True) in at_exit, "clear() empties the write buffer on every path (unflushed output of the abandoned response is discarded)", construct="clear() keeps the write buffer")
-    ck.ob("C02.error-reset", cl, cl.node, ("@headers", True) in at_exit, "clear() replaces the header set on every path", construct="clear() keeps the headers")
-    ck.ob("C02.error-reset", cl, cl.node, ("@status", True) in at_exit, "clear() resets the status code to 200 on every path", construct="clear() keeps the status")
+
+    def hook(n, env):
+        if n.kind == "stmt" and isinstance(n.ast, (ast.Assign, ast.AnnAssign)) and n.ast.value is not None and HDRS in q.assigned_paths(n.ast):
+            vals = n.ast.value.elts if isinstance(n.ast.value, ast.Tuple) else [n.ast.value]
+            env["@fresh-headers"] = any(isinstance(v, ast.Call) and q.call_attr(v) == "HTTPHeaders" for v in vals)
+        return None
+
+    # evaluated on a handler that holds an abandoned response: unflushed bytes, an error-ish status, old headers
+    init = module_constants(cl)
+    init.update(class_constants(ck.repo, WEB, RH))
+    init.update({WB: (b"stale",), SC: 503, "@fresh-headers": False, "@resolve": make_resolver(ck.repo, WEB, RH)})
+    known = {m: None for m in pure_self_methods(ck.repo, WEB, RH)}
+    known["set_default_headers"] = None  # application hook: documented to set headers only
+    states = peval(cfg, init, hook=hook, known_self_methods=known, track=lambda t: True)
+    exits = states.get(cfg.exit.id, [])
+    if not exits:
+        raise AnalysisError("RequestHandler.clear has no normal exit")
+    for key in sorted({(repr(env.get(WB, UNK)), repr(env.get(SC, UNK)), env.get("@fresh-headers"), env.get("@partial")) for _f, env in exits}):
+        env = next(e for _f, e in exits if (repr(e.get(WB, UNK)), repr(e.get(SC, UNK)), e.get("@fresh-headers"), e.get("@partial")) == key)
+        buf, sc = env.get(WB, UNK), env.get(SC, UNK)
+        if buf is UNK or sc is UNK:
+            raise AnalysisError("RequestHandler.clear: the write buffer / status after clear() cannot be evaluated")
+        OB(ck, env, "C02.error-reset", cl, cl.node, buf == (), "clear() empties the write buffer on every path (unflushed output of the abandoned response is discarded)", construct="clear() keeps the write buffer")
+        OB(ck, env, "C02.error-reset", cl, cl.node, env.get("@fresh-headers") is True, "clear() replaces the header set on every path", construct="clear() keeps the headers")
+        OB(ck, env, "C02.error-reset", cl, cl.node, sc == 200, "clear() resets the status code to 200 on every path", construct="clear() keeps the status")
     se = F(ck, WEB, RH + ".send_error")
     clears = {n.id for n, _c in call_sites(se, "self.clear")}
     builds = se.cfg.stmt_nodes(lambda n: n.kind in ("stmt", "test") and n.ast is not None and any(q.is_call(c, "self.set_status", "self.write_error") for c in q.calls(n.ast)))
@@ -1028,35 +1108,39 @@ def check_handler_flush(ck):
                     c = wh_ids[n.id]
                     env["@wh"] = min(env.get("@wh", 0) + 1, 2)
                     a = q.arg(c, 2, "chunk")
-                    obs.append(("wh", c, env.get(HW, UNK), try_fold(a, env) if a is not None else None))
+                    obs.append(("wh", c, env.get(HW, UNK), try_fold(a, env) if a is not None else None, env.get("@partial")))
                 if n.id in w_ids:
                     c = w_ids[n.id]
                     env["@w"] = min(env.get("@w", 0) + 1, 2)
                     a = q.arg(c, 0, "chunk")
-                    obs.append(("w", c, env.get(HW, UNK), try_fold(a, env) if a is not None else None))
+                    obs.append(("w", c, env.get(HW, UNK), try_fold(a, env) if a is not None else None, env.get("@partial")))
                 return None
 
-            init = {METHOD: method, HW: hw, "@wh": 0, "@w": 0, "@resolve": make_resolver(ck.repo, WEB, RH)}
+            init = module_constants(fi)
+            init.update(class_constants(ck.repo, WEB, RH))
+            init.update({METHOD: method, HW: hw, "@wh": 0, "@w": 0, "@resolve": make_resolver(ck.repo, WEB, RH)})
             states = peval(fi.cfg, init, hook=hook, known_self_methods=effects, track=lambda t: True)
             label = "method=%s headers_written=%s" % (method, hw)
-            for kind, c, hwv, data in obs:
+            for kind, c, hwv, data, partial in obs:
+                env = {"@partial": partial}
                 if kind == "wh":
-                    ck.ob("C02.headers-once", fi, c, hwv is True and not hw, "write_headers only when no headers were sent, with _headers_written already set (%s)" % label)
+                    OB(ck, env, "C02.headers-once", fi, c, hwv is True and not hw, "write_headers only when no headers were sent, with _headers_written already set (%s)" % label)
                 else:
-                    ck.ob("C02.headers-once", fi, c, hw, "body-only writes only after the headers were sent (%s)" % label)
+                    OB(ck, env, "C02.headers-once", fi, c, hw, "body-only writes only after the headers were sent (%s)" % label)
                 if method == "HEAD":
-                    ck.ob("C02.head-discard", fi, c, data == b"", "for HEAD no body bytes are handed to the connection (%s; data=%r)" % (label, data))
+                    OB(ck, env, "C02.head-discard", fi, c, data == b"", "for HEAD no body bytes are handed to the connection (%s; data=%r)" % (label, data))
             exits = states.get(fi.cfg.exit.id, [])
             if not exits:
                 raise AnalysisError("RequestHandler.flush has no normal exit under " + label)
-            agg = {(env.get("@wh"), env.get("@w")) for _f, env in exits}
-            for wh, w in sorted(agg):
+            agg = {(env.get("@wh"), env.get("@w"), env.get("@partial")) for _f, env in exits}
+            for wh, w, partial in sorted(agg, key=repr):
+                env = {"@partial": partial}
                 if not hw:
                     ok = wh == 1 and w == 0
-                    ck.ob("C02.headers-once", fi, fi.node, ok, "first flush emits the header block exactly once, body attached (%s: write_headers=%d write=%d)" % (label, wh, w), construct="first flush: write_headers=%d write=%d" % (wh, w))
+                    OB(ck, env, "C02.headers-once", fi, fi.node, ok, "first flush emits the header block exactly once, body attached (%s: write_headers=%d write=%d)" % (label, wh, w), construct="first flush: write_headers=%d write=%d" % (wh, w))
                 else:
                     ok = wh == 0 and (w == 1 if method != "HEAD" else w == 0)
-                    ck.ob("C02.headers-once", fi, fi.node, ok, "later flushes write body data only, nothing for HEAD (%s: write_headers=%d write=%d)" % (label, wh, w),
+                    OB(ck, env, "C02.headers-once", fi, fi.node, ok, "later flushes write body data only, nothing for HEAD (%s: write_headers=%d write=%d)" % (label, wh, w),
                           construct="later flush method=%s: write_headers=%d write=%d" % ("HEAD" if method == "HEAD" else "non-HEAD", wh, w))
 
 
